@@ -7,7 +7,7 @@ import warnings
 from hypothesis import strategies as st
 
 from .. import gen, ops, ref
-from ..ctx import HarnessError, Result, Viol
+from ..ctx import HarnessError, Result, Viol, product_frame
 
 LEVEL = "exploration"
 WORKERS = {"quick": 8, "thorough": 16}
@@ -56,7 +56,6 @@ ASSUMPTIONS = [
 ]
 
 LINKS = [["copy"], ["hardlink"], ["symlink"], ["reflink", "copy"], ["hardlink", "copy"], ["symlink", "copy"]]
-COPY_LINKS = [["copy"]]  # a reflink/hardlink/symlink attempt does not create missing parents
 SEG = ["a", "b", "c", "sub", "x.y", "sp ace", "Ünï", "a.dir", "{b}", "d"]
 
 
@@ -203,6 +202,12 @@ def apply_edits(model, edits):
         elif op == "d2f" and len(dirs) > 1:
             k = dirs[1 + ed[1] % (len(dirs) - 1)]
             m.put_file(k, gen.content_bytes(ed[2]))
+        elif op == "d2f_deep" and len(dirs) > 1:
+            # prefers directories that hold only directories, then the deepest ones
+            only_sub = lambda k: (not any(f[:-1] == k for f in m.files)  # noqa: E731
+                                  and any(e[:-1] == k for e in m.dirs))
+            deep = sorted(dirs[1:], key=lambda k: (not only_sub(k), -len(k), k))
+            m.put_file(deep[ed[1] % min(len(deep), 2)], gen.content_bytes(ed[2]))
         elif op == "rmtree" and len(dirs) > 1:
             m.remove_subtree(dirs[1 + ed[1] % (len(dirs) - 1)])
         elif op == "chmod" and files:
@@ -268,6 +273,7 @@ EDIT = st.one_of(
     st.tuples(st.just("mkdir"), IDX, SEGS13),
     st.tuples(st.just("f2d"), IDX, st.lists(st.tuples(SEGS13, CONTENT), min_size=0, max_size=2)),
     st.tuples(st.just("d2f"), IDX, CONTENT),
+    st.tuples(st.just("d2f_deep"), IDX, CONTENT),
     st.tuples(st.just("rmtree"), IDX),
     st.tuples(st.just("chmod"), IDX, st.booleans()),
     st.tuples(st.just("dangle"), IDX, SEGS13),
@@ -277,7 +283,8 @@ EDIT = st.one_of(
     st.tuples(st.just("outlink_at"), IDX, st.one_of(st.none(), CONTENT)),
 )
 SEL16 = st.sampled_from(range(16))
-FORM = st.sampled_from(["explicit"] * 5 + ["lazy"] * 4 + ["implicit"])
+FORM = st.sampled_from(["explicit"] * 4 + ["implicit"] * 4 + ["lazy"] * 4)
+MIXED = st.sampled_from([0, 0, 1, 2]).flatmap(lambda n: st.lists(st.integers(0, 12), min_size=n, max_size=n))
 NEDITS = st.sampled_from([0, 1, 1, 2, 2, 2, 3, 3, 3, 4, 4, 5, 6])
 ONE_IN_25 = st.sampled_from([False] * 24 + [True])
 ONE_IN_4 = st.sampled_from([False] * 3 + [True])
@@ -290,11 +297,11 @@ PRIOR_MODE = st.sampled_from(["plain", "plain", "checkout"])
 ONE_IN_3 = st.sampled_from([False, False, True])
 STORE = st.sampled_from(ops.STORE_KINDS)
 DELETE = st.sampled_from([True, True, True, False])
+DELETE_LAZY = st.sampled_from([True, True, False, False])
 OLD_HASHES = st.sampled_from([True, True, False])
 STORES = st.sampled_from([0, 0, 0, 1, 1, 2]).flatmap(
     lambda n: st.lists(st.integers(0, 30), min_size=n, max_size=n))
 LINKS_ANY = st.sampled_from(LINKS)
-LINKS_COPY = st.sampled_from(COPY_LINKS)
 
 
 def _jsonable(x):
@@ -314,7 +321,7 @@ def cases(draw):
     else:
         tree = draw(TREE)
     form = draw(FORM)
-    links = draw(LINKS_COPY if form == "implicit" else LINKS_ANY)
+    links = draw(LINKS_ANY)
     edits = [draw(EDIT) for _ in range(draw(NEDITS))]
     if draw(ONE_IN_25):
         edits = [("wipe",)]
@@ -334,9 +341,9 @@ def cases(draw):
         "links": links,
         "via_odb": draw(ONE_IN_3),
         "store": draw(STORE),
-        # implicit parents: nothing in the target tells apply to replace a prior *file* at the place
-        # of an implicit directory unless deletion is on
-        "delete": True if form == "implicit" else draw(DELETE),
+        "delete": draw(DELETE_LAZY if form == "lazy" else DELETE),
+        "mixed": draw(MIXED) if form in ("implicit", "lazy") else [],
+        "lazy_implicit": draw(st.booleans()) if form == "lazy" else False,
         "relink": draw(ONE_IN_4),
         "update_meta": update_meta,
         "state": draw(st.booleans()),
@@ -381,9 +388,29 @@ def lazy_listing(model, node):
     return {"/".join(k[n:]): ref.ref_hash(b) for k, b in model.files.items() if k[:n] == node}
 
 
-def make_target(model, form, lazy, odb, extra=()):
-    """A freshly constructed target index for the model; `extra` = [(key, odb)]: further cache storages
-    registered at a file's own key or at a directory key (the storage map resolves by longest prefix)."""
+def dir_entry_keys(case, model, lazy):
+    """The directories of the target that get an entry of their own. explicit: every directory;
+    implicit: only those that hold nothing (they would not exist otherwise) plus the drawn `mixed`
+    subset of the parents; lazy: explicit, or implicit around the lazy nodes when `lazy_implicit`."""
+    form = case["form"]
+    dirs = model.sorted_dirs()
+    if form == "explicit" or (form == "lazy" and not case.get("lazy_implicit")):
+        return set(dirs)
+    holds = lambda d: (any(k[:len(d)] == d for k in model.files)  # noqa: E731
+                       or any(e[:len(d)] == d and e != d for e in model.dirs))
+    parents = [d for d in dirs if holds(d)]
+    keys = {d for d in dirs if not holds(d)}
+    for i in case.get("mixed", []):
+        if parents:
+            keys.add(parents[i % len(parents)])
+    return keys
+
+
+def make_target(model, dir_entries, lazy, odb, extra=()):
+    """A freshly constructed target index for the model. `dir_entries`: directory keys that get an explicit
+    Meta(isdir=True) entry (all others are implicit: the index has entries below them only); `lazy`:
+    directory keys given as unloaded .dir objects; `extra` = [(key, odb)]: further cache storages registered
+    at a file's own key or at a directory key (the storage map resolves by longest prefix)."""
     from dvc_data.hashfile.hash_info import HashInfo
     from dvc_data.hashfile.meta import Meta
     from dvc_data.index import DataIndex, DataIndexEntry, ObjectStorage
@@ -393,16 +420,10 @@ def make_target(model, form, lazy, odb, extra=()):
     for d in lazy:
         oid = ref.ref_tree_oid(lazy_listing(model, d))
         idx.add(DataIndexEntry(key=d, meta=Meta(isdir=True), hash_info=HashInfo("md5", oid)))
-    if form != "implicit":
-        for d in model.sorted_dirs():
-            if d in lazy or covered(d):
-                continue
-            idx.add(DataIndexEntry(key=d, meta=Meta(isdir=True), loaded=True))
-    else:
-        for d in model.sorted_dirs():  # only the directories that hold nothing need an entry
-            if not any(k[:len(d)] == d for k in model.files) and not any(
-                    e[:len(d)] == d and e != d for e in model.dirs):
-                idx.add(DataIndexEntry(key=d, meta=Meta(isdir=True), loaded=True))
+    for d in model.sorted_dirs():
+        if d in lazy or covered(d) or d not in dir_entries:
+            continue
+        idx.add(DataIndexEntry(key=d, meta=Meta(isdir=True), loaded=True))
     for k in model.sorted_files():
         if covered(k):
             continue
@@ -551,6 +572,10 @@ def run_case(case, ctx):  # noqa: C901, PLR0912, PLR0915
     # entry without a hash (explicit, or created while a .dir object is loaded), which did not converge
     # before /repo e8fce0e. Symlinks to directories are outside the property's quantifier.
     form, links, delete = case["form"], list(case["links"]), case["delete"]
+    dir_entries = dir_entry_keys(case, T, lazy)
+    # directories of the target the index has no entry for (entries exist below them only)
+    implicit_dirs = {e for e in T.dirs if e not in dir_entries and e not in lazy
+                     and not any(e[:len(n)] == n for n in lazy)}
     old_hashes = case.get("old_hashes", True)  # absent in cases saved before the dimension existed
 
     viols, classes = [], []
@@ -601,7 +626,7 @@ def run_case(case, ctx):  # noqa: C901, PLR0912, PLR0915
                                     **({"type": list(links)} if case["via_odb"] else {}))
             for data in prior.files.values():
                 put_object(odb0, case["store"], ref.ref_hash(data), data)
-            idx0 = make_target(prior, "explicit", [], odb0)
+            idx0 = make_target(prior, set(prior.dirs), [], odb0)
             errs0 = []
             apply(compare(None, idx0), ws, fs, update_meta=False, links=links_arg(),
                   onerror=lambda *a: errs0.append(a))
@@ -638,12 +663,23 @@ def run_case(case, ctx):  # noqa: C901, PLR0912, PLR0915
 
         # delete off: a target file whose path holds a non-empty prior directory cannot be placed
         blocked = []
+        in_the_way = []
+        expect_blocked_reported = set()
         if not delete:
             for k in T.sorted_files():
                 if k in prior.dirs and (any(f[:len(k)] == k for f in prior.files)
                                         or any(f[:len(k)] == k for f in prior.links)
                                         or any(e[:len(k)] == k and e != k for e in prior.dirs)):
                     blocked.append(k)
+            # ... and a prior file (or link) at the place of a directory the index has no entry for stays
+            # in the way: nothing tells apply to replace it. The files below must then be reported.
+            in_the_way = [e for e in sorted(implicit_dirs) if e in prior.files or e in prior.links]
+            in_the_way = [e for e in in_the_way if not any(e[:len(o)] == o and o != e for o in in_the_way)]
+            blocked += in_the_way
+            if not gone:
+                expect_blocked_reported = {_join(ws, k) for k in T.sorted_files() if under(k, in_the_way)}
+                expect_blocked_reported |= {_join(ws, e) for e in dir_entries
+                                            if under(e, in_the_way) and e not in in_the_way}
 
         # ---- compare + apply ----------------------------------------------------------------
         state = ops.make_state(ws, os.path.join(d, "state")) if case["state"] else None
@@ -653,7 +689,7 @@ def run_case(case, ctx):  # noqa: C901, PLR0912, PLR0915
                 old = build_old(ws, state, root_entry=() in lazy, hashes=old_hashes)
             else:
                 classes.append("old=None")
-            target = make_target(T, form, lazy, odb, extra)
+            target = make_target(T, dir_entries, lazy, odb, extra)
             load_errors = []
             if case.get("collect"):
                 # a non-raising handler, as applications install to report all problems at once
@@ -665,12 +701,15 @@ def run_case(case, ctx):  # noqa: C901, PLR0912, PLR0915
             try:
                 apply(diff, ws, fs, update_meta=case["update_meta"], state=state, links=links_arg(),
                       onerror=lambda *a: reported.append(a))
-            except FileNotFoundError as exc:
-                # Not judged: once a source is unavailable the statement only promises that the entry
-                # is reported through the callback. apply() stats the destination of such an entry
-                # afterwards (update_meta / chmod of an isexec entry) and lets that error escape; the
-                # callback has been called by then, which is what is checked below.
-                if not affected:
+            except (FileNotFoundError, NotADirectoryError) as exc:
+                # Not judged: once a source is unavailable (or, delete off, a prior file occupies the
+                # place of a directory the index has no entry for) only the report through the callback
+                # is promised. apply() stats the destination of such an entry afterwards (update_meta /
+                # chmod of an isexec entry) and lets that error escape; the callback has been called by
+                # then, which is what is checked below. An error escaping from anywhere else is judged.
+                frame = product_frame(exc)
+                if not (affected or in_the_way) or frame is None or frame[1] not in ("_create_files",
+                                                                                     "_chmod_files"):
                     raise
                 raised = exc
                 classes.append("apply-raised-after-report")
@@ -702,18 +741,13 @@ def run_case(case, ctx):  # noqa: C901, PLR0912, PLR0915
                                             f"{'removed' if k not in after_files else 'altered'}"))
                 # second compare: fresh old index with hashes, freshly constructed target
                 old2 = build_old(ws, state, root_entry=() in lazy)
-                target2 = make_target(T, form, lazy, odb, extra)
+                target2 = make_target(T, dir_entries, lazy, odb, extra)
                 diff2 = compare(old2, target2, delete=delete)
-                ignore_dirs = set()
-                if form == "implicit":
-                    ignore_dirs = {e for e in T.dirs if e not in {k for k in target2.iterkeys()}}
                 for name in ("files_create", "files_delete", "dirs_create", "dirs_delete"):
                     left = []
                     for entry in getattr(diff2, name):
                         k = tuple(entry.key)
                         if under(k, aff) or under(k, blocked):
-                            continue
-                        if name == "dirs_delete" and k in ignore_dirs:
                             continue
                         left.append(k)
                     if left:
@@ -733,6 +767,10 @@ def run_case(case, ctx):  # noqa: C901, PLR0912, PLR0915
                         viols.append(Viol("failed-dir-created",
                                           f"{_rel(n)}: its .dir object is not in the cache, yet the "
                                           f"path was created in the workspace"))
+            for p in sorted(expect_blocked_reported - reported_paths):
+                viols.append(Viol("delete-off:file-in-the-way-unreported",
+                                  f"{os.path.relpath(p, ws)}: a prior file occupies the place of its parent "
+                                  f"directory (delete off) and the error callback was not called for it"))
             for p in sorted(expect_reported - reported_paths):
                 kind = "dir" if p in {_join(ws, n) for n in failed_dirs} else "file"
                 viols.append(Viol(f"unreported-missing-source:{kind}",
@@ -776,7 +814,7 @@ def run_case(case, ctx):  # noqa: C901, PLR0912, PLR0915
         kind = "dangling-link" if v is None else "outside-file-link"
         where = ("at-target-file" if k in T.files else "at-lazy-dir" if k in lazy
                  else "at-hashless-dir:inside-lazy" if k in T.dirs and under(k, lazy)
-                 else "at-hashless-dir:implicit" if k in T.dirs and form == "implicit"
+                 else "at-implicit-dir" if k in implicit_dirs
                  else "at-hashless-dir:explicit" if k in T.dirs else "not-in-target")
         classes.append(f"prior:{kind}:{where}")
     if extra:
@@ -821,6 +859,18 @@ def run_case(case, ctx):  # noqa: C901, PLR0912, PLR0915
         classes.append("missing-file-source")
     if blocked:
         classes.append("delete-off:blocked-file")
+    if in_the_way:
+        classes.append("delete-off:file-at-implicit-dir")
+    if not delete and any((e in prior.files or e in prior.links) and e not in lazy and under(e, lazy)
+                          for e in T.dirs):
+        classes.append("delete-off:file-at-dir-inside-lazy")
+        if any((e in prior.files or e in prior.links) and e not in lazy and under(e, lazy)
+               and not any(f[:-1] == e for f in T.files) for e in T.dirs):
+            classes.append("delete-off:file-at-subdir-only-dir-inside-lazy")
+    if implicit_dirs:
+        classes.append("implicit-dirs:" + ("all" if not (T.dirs & dir_entries) - set(lazy) else "mixed"))
+        if any(len(e) >= 2 for e in implicit_dirs):
+            classes.append("implicit-dir-depth>=2")
     if not nonempty:
         classes.append("prior-empty")
     elif prior.same(T):
